@@ -288,12 +288,12 @@ def _ctor_lsp(ctx) -> None:
 
 def run(ctx) -> None:
     ctx.explanation = EXPLANATION
-    _protocol(ctx)
-    _units(ctx)
-    _reference(ctx)
-    _ctor_lsp(ctx)
+    ctx.step(_protocol, ctx)
+    ctx.step(_units, ctx)
+    ctx.step(_reference, ctx)
+    ctx.step(_ctor_lsp, ctx)
     from . import C04
-    C04._neg_and_signature(ctx)
+    ctx.step(C04._neg_and_signature, ctx)
     ctx.expect_min("DUNDER", 20)
     ctx.expect_min("ATTR-UNDER-GUARD", 8)
     ctx.expect_min("RATIO", 3)
